@@ -16,7 +16,8 @@ from synced_collections.backends.collection_json import JSONDict, JSONList
 ID = "C08"
 LEVEL = "fault_enumeration"
 RULE = ("Hypothesis-generated scenarios: JSON class (12) x write configuration {write_concern=True & "
-        "threading on, write_concern=True & threading off, write_concern=False & threading on} x "
+        "threading on, write_concern=True & threading off, write_concern=False & threading on, write_concern=False & object created while threading was "
+        "off then threading switched on} x "
         "initial content (absent / generated document, up to several KB) x {one mutating operation | "
         "flush of 1-3 modified buffered files by per-object exit, backend-wide exit or a "
         "capacity-forced flush, both strategies}. For each scenario the un-crashed run is measured in "
@@ -41,7 +42,9 @@ ASSUMPTIONS = [
     "unserializable-content part",
 ]
 
-CONFIGS = [(True, True), (True, False), (False, True)]
+# threading == "toggled": the object is created while threading support is switched off and
+# threading is switched on again before the save (atomic mode is in effect at the time of the save)
+CONFIGS = [(True, True), (True, False), (False, True), (False, "toggled")]
 
 
 class NVDict(JSONDict):
@@ -93,9 +96,11 @@ def make_setup(sc, d, cls=None):
 
     def setup():
         reset_class_state()
-        if not sc["threading"]:
+        if not sc["threading"] or sc["threading"] == "toggled":
             cls.disable_multithreading()
         objs = [cls(filename=p, write_concern=sc["wc"]) for p in _paths(d, len(sc["init"]))]
+        if sc["threading"] == "toggled":
+            cls.enable_multithreading()
         st8 = {"objs": objs, "ctxs": []}
         kind = sc["kind"]
         if kind.startswith("flush"):
